@@ -235,6 +235,50 @@ theorem C06_stays_in_range (ps : List Param) (hps : ∀ p ∈ ps, p.lo ≤ p.hi)
   obtain ⟨a0, ha0, rfl⟩ := hb
   exact h0 a0 ha0
 
+/-! ## the new value is what the agent subsequently uses — along every continuation -/
+
+/-- `save_checkpoint` → `load_checkpoint` into a twin / `load`: nothing observable moves — every
+    attribute and the learning rate of every parameter group come back by value -/
+theorem C06_checkpoint_roundtrip_unobservable (ps : List Param) (P : Pop) (h : WF ps P) (i : Nat) :
+    (P.reload i).obs = P.obs ∧ WF ps (P.reload i) :=
+  reload_refines ps P h i
+
+/-- `create_population`'s population is lr-coherent when every optimizer was built from the
+    attribute it is registered on -/
+theorem C06_initial_population_coherent (ps : List Param) (n : Nat) (attrs : List Rat) (opts : List Opt)
+    (h : ∀ o ∈ opts, ∀ g ∈ o.groups, attrs[o.lr]? = some g) :
+    ∀ a ∈ (Pop.initial ps n attrs opts).agents, Coherent a.obs := by
+  intro a ha
+  simp only [Pop.initial, List.mem_replicate] at ha
+  rw [ha.2]
+  exact h
+
+/-- lr-coherence — every parameter group of every optimizer an agent steps carries the agent's
+    current value of that optimizer's learning-rate attribute — holds for every agent after every
+    sequence of hyper-parameter mutations, clones, selections and checkpoint round trips
+    (repaired semantics; learning steps and the other mutation kinds do not touch the model state) -/
+theorem C06_lr_coherent_along_every_continuation (ps : List Param) (P : Pop) (h : WF ps P)
+    (h0 : ∀ a ∈ P.agents, Coherent a.obs) (ops : List Op) :
+    ∀ a ∈ (P.run .own true ops).agents, Coherent a.obs := by
+  intro a ha
+  have hobs : a.obs ∈ (P.run .own true ops).obs := List.mem_map_of_mem ha
+  rw [C06_uses_own_value ps P h ops] at hobs
+  refine spec_run_coherent ps ops P.obs ?_ a.obs hobs
+  intro b hb
+  simp only [Pop.obs, List.mem_map] at hb
+  obtain ⟨a0, ha0, rfl⟩ := hb
+  exact h0 a0 ha0
+
+/-- the first-optimizer-only variant (D19) is NOT coherent after one mutation: same witness -/
+theorem C06_first_optimizer_only_incoherent_witness :
+    let p : Param := { lo := 1/100, hi := 100, shrink := 4/5, grow := 6/5, dtype := .float }
+    let opts : List Opt := [{ lr := 0, groups := [1] }, { lr := 1, groups := [2] }, { lr := 1, groups := [2] }]
+    let P := Pop.initial [p, p] 1 [1, 2] opts
+    ((P.mutate .own false 0 1 (3/4)).agents.map
+        (fun a => a.opts.map (fun o => o.groups.map (fun g => decide (a.attrs[o.lr]? = some g))))) =
+      [[[true], [true], [false]]] := by
+  decide +kernel
+
 /-! ## the same theorems over the definitions translated from the source text
 
 `harness/py2lean_hpmut.py` translates `RLParameter.mutate` and `HyperparameterConfig.sample` of
@@ -360,6 +404,14 @@ example :
 example :
     ((exPop.run .own true [.mutate 0 0 (3/4)]).agents.map (fun a => a.opts.map (·.groups))) =
       [[[3/2560, 3/2560]], [[1/1024, 1/1024]], [[1/1024, 1/1024]]] := by decide +kernel
+-- … and continued through a checkpoint round trip: the reloaded agent mutates from its own value
+example :
+    ((exPop.run .own true [.mutate 0 0 (3/4), .reload 0, .mutate 0 0 (3/4), .reload 1]).agents.map
+        (fun a => (a.attrs, a.opts.map (·.groups)))) =
+      [([9/6400, 64], [[9/6400, 9/6400]]), ([1/1024, 64], [[1/1024, 1/1024]]),
+       ([1/1024, 64], [[1/1024, 1/1024]])] := by decide +kernel
+example : ∀ a ∈ exPop.agents, Coherent a.obs :=
+  C06_initial_population_coherent _ _ _ _ (by decide +kernel)
 example : sample 2 [1, 0] = some 1 := by decide
 -- the translated methods on the same data
 example : HpMutGen.RLParameter.mutate exBs.lo exBs.hi exBs.shrink exBs.grow (toGen exBs.dtype) (some 64) 0
